@@ -40,6 +40,8 @@ def judge(doc, tier, seed, min_inside=30, min_outside=30, structural=True, G=Non
 def record(doc, tier, seed, sig_extra=None, case_extra=None, **kw):
     o, why, kind, nt, st, out = judge(doc, tier, seed, **kw)
     rec = {"out": o, "nt": doc if nt else None, "viol": [], "cnt": {"compared_points": st.get("compared", 0), "patterns": st.get("patterns", 0)}}
+    if nt and st.get("patterns", 0) >= 3:
+        rec["sample"] = {"source": doc, "compared_points": st.get("compared"), "coverage_patterns": st.get("patterns")}
     if why:
         sig = {"kind": kind}
         sig.update(sig_extra or {})
